@@ -8,6 +8,7 @@ portable codec of `IrisVerif/Model/Portable.lean`.  `Funs` (the numerical routin
 import IrisVerif.Lemmas.Heap
 import IrisVerif.Lemmas.HeapOwned
 import IrisVerif.Model.Portable
+import IrisVerif.Lemmas.Portable
 
 namespace IrisVerif.C20
 open IrisVerif.Heap
@@ -787,9 +788,8 @@ theorem context_roundtrip (keys : List String) (h : "__builtins__" ∉ keys) : e
 
 /-! ### composition on whole lists: order and content -/
 
-/-- normal form of a quantity / equation after a round trip: attributes `None` become the empty set -/
-def normQ (q : Quantity) : Quantity := { q with attrs := some (q.attrs.getD []) }
-def normE (e : Equation) : Equation := { e with attrs := some (e.attrs.getD []) }
+/- `normQ`, `normE`, `normB` (normal forms after a round trip: attributes `None` become the empty set; std quantities
+are re-created) are defined in `Lemmas/Portable.lean`. -/
 
 theorem decodeQs_filterMap_encode : ∀ (l : List Quantity), (∀ q, q ∈ l → (kindCode q.kind).isSome) →
     decodeQs (l.filterMap encodeQ) = some (l.map normQ) := by
@@ -843,10 +843,203 @@ theorem quantities_roundtrip_sorted (qs : List Quantity) (h : groupQ exportOrder
     decodeQs (encodeQs qs) = some ((qs.filter (fun q => !q.kind.isStd)).map normQ) := by
   rw [quantities_roundtrip, h]
 
-/- The remaining steps of `fromPortable (toPortable d vars)` -- `missingAnt = []`, `stdsOf` of the decoded list equals the
-std quantities of `d`, `groupQ fullOrder` is the identity on a sorted list, `importVariant` returns the exported values
-(`variant_values_roundtrip` + idempotence of the assignment rules) -- are NOT composed into one theorem here; the executable
-`fromPortable (toPortable ·)` is compared with `from_portable(to_portable(m))` on every generated model (`port rt` lines). -/
+/-! ### the whole record -/
+
+/-- the well-formedness the codec needs; every model built by `from_source` has it (`base` = its non-std quantities) -/
+structure PortableWF (d : InvData) (base : List Quantity) (vars : List (List Val × List Val)) : Prop where
+  /-- the std parameters are exactly the ones derived from the shocks, and come last -/
+  split : d.quantities = base ++ stdsOf d.flags base
+  nostd : ∀ q, q ∈ base → q.kind.isStd = false
+  /-- the quantities are in kind order (`reorder_by_kind`) -/
+  sorted : groupQ exportOrder base = base
+  /-- every transition shock has its anticipated counterpart -/
+  ant : missingAnt base = []
+  /-- names are pairwise distinct -/
+  nodup : (d.quantities.map (·.name)).Nodup
+  counts : countQ d.quantities .transVar = countE d.equations .transition ∧
+           countQ d.quantities .measVar = countE d.equations .measurement
+  /-- the equation pairs are in kind order -/
+  esorted : groupE d.equations = d.equations
+  ctx : "__builtins__" ∉ d.contextKeys
+  vars_ne : vars ≠ []
+  /-- every variant holds one level and one change per quantity and satisfies the assignment rules (shock levels 0,
+  no change for non-loggables), as every variant produced by `assign`/`steady` does -/
+  vars_ok : ∀ v, v ∈ vars → v.1.length = d.quantities.length ∧ v.2.length = d.quantities.length ∧
+    enforceLevels d.quantities v.1 = v.1 ∧ enforceChanges d.quantities v.2 = v.2
+
+/-- what comes back: the same description, flags, context keys, names, kinds, log status, quantity descriptions, dynamic
+and steady equation texts; FORGOTTEN: attributes `None` (they come back as the empty set: `normB`, `normE`), the identity of
+the std parameters (re-created from the shocks: equal to the originals under `PortableWF.split`), the tolerances and the
+default std (not part of the portable: reset to `tol` and to the default of the flags), context VALUES (keys only). -/
+def roundTripped (d : InvData) (tol : Rat) : InvData :=
+  { desc := d.desc, flags := d.flags, quantities := d.quantities.map normB, equations := d.equations.map normE,
+    contextKeys := d.contextKeys, tolEig := tol, tolEq := tol, defaultStd := if d.flags.linear then 1 else 1 / 100 }
+
+theorem importVariant_roundtrip (d : InvData) (tol : Rat) (v : List Val × List Val)
+    (hnd : (d.quantities.map (·.name)).Nodup) (h1 : v.1.length = d.quantities.length)
+    (h2 : v.2.length = d.quantities.length) (h3 : enforceLevels d.quantities v.1 = v.1)
+    (h4 : enforceChanges d.quantities v.2 = v.2) :
+    importVariant (roundTripped d tol) (encodeVariant (d.quantities.map (·.name)) v.1 v.2) = v := by
+  unfold importVariant
+  have hn : (roundTripped d tol).quantities.map (·.name) = d.quantities.map (·.name) := names_map_normB _
+  have hpairs := variant_values_roundtrip (d.quantities.map (·.name)) v.1 v.2 hnd (by simp [h1]) (by simp [h2])
+  simp only [hn, hpairs]
+  have l1 : (initLevels (roundTripped d tol)).length = v.1.length := by simp [initLevels, roundTripped, h1]
+  have l2 : (initChanges (roundTripped d tol)).length = v.1.length := by simp [initChanges, roundTripped, h1]
+  rw [zipWith_fst v.1 v.2 _ l1 (by rw [h1, h2]), zipWith_snd v.1 v.2 _ l2 (by rw [h1, h2])]
+  show (enforceLevels (d.quantities.map normB) v.1, enforceChanges (d.quantities.map normB) v.2) = v
+  rw [enforceLevels_map normB normB_kind, enforceChanges_map normB normB_kind, h3, h4]
+
+/-- WHOLE-RECORD ROUND TRIP: for every well-formed model record and every list of variants,
+`fromPortable (toPortable (d, vars))` succeeds and returns `roundTripped d` with EXACTLY the same variant values
+(levels and changes of every quantity of every variant, parameters and stds included) -- whatever the substitution
+function and the tolerance are. -/
+theorem portable_roundtrip (subst : List Quantity → Equation → Equation) (tol : Rat) (d : InvData)
+    (base : List Quantity) (vars : List (List Val × List Val)) (w : PortableWF d base vars) :
+    fromPortable subst tol (toPortable d vars) = .ok (roundTripped d tol, vars) := by
+  have hQ : decodeQs (encodeQs d.quantities) = some (base.map normQ) := by
+    rw [quantities_roundtrip, w.split, groupQ_export_base d.flags base w.sorted]
+  have hE : decodeEs (encodeEs d.equations) = some (d.equations.map normE) := by
+    rw [equations_roundtrip, w.esorted]
+  have hqs2 : sourceQuantities d.flags (base.map normQ) = d.quantities.map normB := by
+    rw [sourceQuantities_roundtrip d.flags base w.ant w.nostd, ← w.split]
+  have hes1 : sourceEquations subst (base.map normQ) (d.equations.map normE) = d.equations.map normE :=
+    sourceEquations_roundtrip subst base w.ant _
+  have hsorted : groupQ fullOrder d.quantities = d.quantities := by
+    rw [w.split]; exact groupQ_full_sorted d.flags base w.sorted w.nostd
+  have hinv : mkInv (toPortable d vars) tol (d.quantities.map normB) (d.equations.map normE) = roundTripped d tol := by
+    unfold mkInv toPortable roundTripped
+    simp only [groupQ_map normB normB_kind, hsorted, groupE_map_normE, w.esorted, context_roundtrip _ w.ctx]
+  have hnames : ((d.quantities.map normB).map (·.name)).Nodup := by rw [names_map_normB]; exact w.nodup
+  have hcounts : ¬ (countQ (d.quantities.map normB) .transVar ≠ countE (d.equations.map normE) .transition
+      ∨ countQ (d.quantities.map normB) .measVar ≠ countE (d.equations.map normE) .measurement) := by
+    rw [countQ_map normB normB_kind, countQ_map normB normB_kind, countE_map_normE, countE_map_normE]
+    simp [w.counts.1, w.counts.2]
+  have hvars : (toPortable d vars).variants = vars.map (fun v => encodeVariant (d.quantities.map (·.name)) v.1 v.2) := rfl
+  have hne : ((toPortable d vars).variants).isEmpty = false := by
+    rw [hvars]
+    cases hv : vars with
+    | nil => exact absurd hv w.vars_ne
+    | cons a as => rfl
+  have hknown : (toPortable d vars).variants.all (namesKnown (roundTripped d tol)) = true := by
+    rw [hvars, List.all_eq_true]
+    intro dict hd
+    simp only [List.mem_map] at hd
+    obtain ⟨v, _, rfl⟩ := hd
+    unfold namesKnown
+    rw [List.all_eq_true]
+    intro e he
+    have hn : (roundTripped d tol).quantities.map (·.name) = d.quantities.map (·.name) := names_map_normB _
+    rw [hn]
+    unfold encodeVariant at he
+    have := (List.of_mem_zip he).1
+    simpa using this
+  have himport : (toPortable d vars).variants.map (importVariant (roundTripped d tol)) = vars := by
+    rw [hvars, List.map_map]
+    have : vars.map (importVariant (roundTripped d tol) ∘ fun v => encodeVariant (d.quantities.map (·.name)) v.1 v.2)
+        = vars.map id := by
+      apply List.map_congr_left
+      intro v hv
+      obtain ⟨h1, h2, h3, h4⟩ := w.vars_ok v hv
+      exact importVariant_roundtrip d tol v w.nodup h1 h2 h3 h4
+    rw [this, List.map_id]
+  unfold fromPortable
+  have hfmt : (toPortable d vars).format = "0.3.0" := rfl
+  have hq' : (toPortable d vars).quantities = encodeQs d.quantities := rfl
+  have he' : (toPortable d vars).equations = encodeEs d.equations := rfl
+  have hfl : (toPortable d vars).flags = d.flags := rfl
+  simp only [hfmt, hq', he', hfl, hQ, hE, hqs2, hes1, hinv, ne_eq, not_true_eq_false, if_false, hnames, hcounts, hne,
+    hknown, himport, Bool.false_eq_true]
+
+/-- the executable check the driver runs on every generated model implies the well-formedness of the theorem -/
+theorem portableWFb_sound (d : InvData) (vars : List (List Val × List Val)) (h : portableWFb d vars = true) :
+    PortableWF d (d.quantities.filter (fun q => !q.kind.isStd)) vars := by
+  unfold portableWFb at h
+  simp only [Bool.and_eq_true, decide_eq_true_eq, Bool.not_eq_true', List.all_eq_true] at h
+  obtain ⟨⟨⟨⟨⟨⟨⟨⟨⟨h1, h2⟩, h3⟩, h4⟩, h5⟩, h6⟩, h7⟩, h8⟩, h9⟩, h10⟩ := h
+  refine ⟨h1, ?_, h2, h3, h4, ⟨h5, h6⟩, h7, h8, ?_, ?_⟩
+  · intro q hq
+    simp only [List.mem_filter, Bool.not_eq_true'] at hq
+    exact hq.2
+  · intro hv
+    rw [hv] at h9
+    simp at h9
+  · intro v hv
+    have := h10 v hv
+    exact ⟨this.1.1.1, this.1.1.2, this.1.2, this.2⟩
+
+/-- so: whenever the executable check passes, the whole-record round trip is exact -/
+theorem portable_roundtrip_checked (subst : List Quantity → Equation → Equation) (tol : Rat) (d : InvData)
+    (vars : List (List Val × List Val)) (h : portableWFb d vars = true) :
+    fromPortable subst tol (toPortable d vars) = .ok (roundTripped d tol, vars) :=
+  portable_roundtrip subst tol d _ vars (portableWFb_sound d vars h)
+
+/-- the corollary the property statement asks for: names, kinds, log status, equations, flags come back -/
+theorem portable_roundtrip_fields (d : InvData) (tol : Rat) :
+    (roundTripped d tol).quantities.map (fun q => (q.name, q.kind, q.logly, q.desc))
+      = d.quantities.map (fun q => (q.name, q.kind, q.logly, q.desc)) ∧
+    (roundTripped d tol).equations.map (fun e => (e.kind, e.dynamic, e.steady, e.desc))
+      = d.equations.map (fun e => (e.kind, e.dynamic, e.steady, e.desc)) ∧
+    (roundTripped d tol).flags = d.flags ∧ (roundTripped d tol).desc = d.desc ∧
+    (roundTripped d tol).contextKeys = d.contextKeys := by
+  refine ⟨?_, ?_, rfl, rfl, rfl⟩
+  · show (d.quantities.map normB).map _ = _
+    rw [List.map_map]
+    apply List.map_congr_left
+    intro q _
+    simp
+  · show (d.equations.map normE).map _ = _
+    rw [List.map_map]
+    apply List.map_congr_left
+    intro e _
+    rfl
+
+/-! non-vacuity of `PortableWF`: a stochastic linear model `x = rho*x[-1] + e` with its derived `ant_e` and `std_e`,
+one variant with `rho = 1/3` -/
+
+private def baseW : List Quantity :=
+  [q "x" .transVar (some false), q "e" .transShock none,
+   { name := "ant_e", kind := .antShock, logly := none, desc := "(Anticipated value) e", attrs := none },
+   q "rho" .param none]
+
+private def flagsW : Flags := { linear := true, flat := false, deterministic := false }
+
+private def dW : InvData :=
+  { desc := "demo"
+    flags := flagsW
+    quantities := baseW ++ stdsOf flagsW baseW
+    equations := [{ kind := .transition, dynamic := "x=rho*x[-1]+(e+ant_e)", steady := "x=rho*x[-1]+e" }]
+    contextKeys := ["myfunc"]
+    tolEig := 0
+    tolEq := 0
+    defaultStd := 1 }
+
+private def varsW : List (List Val × List Val) :=
+  [([none, some 0, some 0, some (1 / 3), some 1], [none, none, none, none, none])]
+
+theorem portableWF_example : PortableWF dW baseW varsW where
+  split := rfl
+  nostd := by
+    intro x hx
+    simp only [baseW, List.mem_cons, List.not_mem_nil, or_false] at hx
+    rcases hx with rfl | rfl | rfl | rfl <;> rfl
+  sorted := by decide
+  ant := by decide
+  nodup := by decide
+  counts := by decide
+  esorted := by decide
+  ctx := by decide
+  vars_ne := by simp [varsW]
+  vars_ok := by
+    intro v hv
+    simp only [varsW, List.mem_cons, List.not_mem_nil, or_false] at hv
+    subst hv
+    exact ⟨rfl, rfl, rfl, rfl⟩
+
+/-- the hypotheses are satisfiable and the conclusion is about a non-trivial record: the std parameter is re-created,
+`attrs = None` of `ant_e` comes back as the empty set, `rho = 1/3` comes back exactly -/
+example : fromPortable (fun _ e => e) 0 (toPortable dW varsW) = .ok (roundTripped dW 0, varsW) :=
+  portable_roundtrip _ 0 dW baseW varsW portableWF_example
 
 example : encodeQ (q "ant_e" .antShock none |>.attrs |> fun _ => { name := "ant_e", kind := .antShock, logly := none, attrs := none })
     = some ⟨"#v", "ant_e", none, "", []⟩ := rfl
